@@ -19,5 +19,9 @@ theorem inv4_kstep (st st' : St) (k : Kt) (pc : KPc) (e : Env) (h : Inv1 st) (h4
   | xor c => simp [hpc, kTok, kHolds] at hk0; crunch
   | xio c => simp [hpc, kTok, kHolds] at hk0; crunch
   | xtake s => simp [hpc, kTok, kHolds] at hk0; crunch
+  | reg0 s c r => simp [hpc, kTok, kHolds] at hk0 hlt hwt; crunch
+  | chk2 s c => simp [hpc, kTok, kHolds] at hk0; crunch
+  | own s => simp [hpc, kTok, kHolds] at hk0; crunch
+  | ownDis s c => simp [hpc, kTok, kHolds] at hk0 hlk hwk; crunch
 
 end MayVerif.Io
